@@ -24,7 +24,7 @@ FUNCTIONS = ["FullscreenWindow.render_to_terminal", "BaseWindow.on_terminal_size
              "blessed.Terminal.move/clear_eol/clear_bol/hide_cursor/normal_cursor (real capability strings)"]
 BOUNDS = ("terminal sizes (1,2), (2,2) quick; + (2,3), (3,3) thorough; optional resize to a different size in {(1,2),(2,2),(2,3),(3,2)}; "
           "arrays of height 0..h+1, rows of length 0..w+1 given as str / 1-run / 2-run FmtStr, as list or FSArray; first array from "
-          "a reduced set, second array: quick a seeded sample of 40 per instance, thorough all; every row character and every "
+          "a reduced set, second array: quick every array of at most one row, every two-row array of plain rows of length 0 / w / w+1 (all ordered pairs of adjacent shapes) plus a seeded sample of the others, thorough all; every row character and every "
           "junk cell symbolic (any character: neither the window nor the model inspects them), cursor target any on-screen cell, hide_cursor both")
 STUBS = ["terminal model (xterm pending-wrap semantics) as output device; rows are handed over as FmtStr through the public "
          "fmtstr_to_stdout_xform() extension point (assumes C01: str(f) displays f's cells)", "window.t.height/width come "
@@ -107,8 +107,11 @@ def _b_cases():
     lim = P.get("limit")
     if lim and len(cases) > lim:
         k = -(-len(cases) // lim)
-        must = [c for c in cases if len(c) <= 1]
-        cases = must + cases[(P.get("seed", 0) % k)::k]
+        # every array of at most one row, every ordered pair of plain empty / full-width / too-wide rows, plus a seeded sample of the rest
+        plain = lambda c: all(kind == "s" and ln != 1 for ln, kind in c)      # noqa  rows '', full width, too wide
+        must = [c for c in cases if len(c) <= 1 or (len(c) == 2 and plain(c))]
+        rest = [c for c in cases if c not in must]
+        cases = must + rest[(P.get("seed", 0) % k)::k]
     return cases
 
 
